@@ -170,9 +170,15 @@ def handle (j : Json) : IO Unit := do
           fails := fails ++ [("valid-request-rejected", s!"rejected: {jstr (jget e "msg")}")]
         if !(jbool (jget impl "error_format_ok")) then fails := fails ++ [("error-format", "WriteError(400) is not an Anthropic invalid_request_error body")]
         if jbool (jget impl "produced_despite_error") then fails := fails ++ [("output-despite-error", "a request was produced next to the error")]
+    -- a request of a chosen size relative to the configured max_message_size: same clauses, the sizes go into the branch and the note
+    let (szBranch, szNote) := match jfield? j "sized" with
+      | some sz => if jisNull sz then ("", "") else
+          (s!".sized-{jstr (jget sz "at")}",
+           s!"[body of {jnat (jget sz "raw_len")} bytes, max_message_size {jnat (jget sz "limit")}, padding {jstr (jget sz "filler")} in {jstr (jget sz "where")}] ")
+      | none => ("", "")
     match pickFailure fails with
-    | some (sig, note) => emit case agree false (reqBranch r implOk) sig note (if agree then Json.null else modelJ)
-    | none => emit case agree true (reqBranch r implOk) "" (if agree then "" else "model differs") (if agree then Json.null else modelJ)
+    | some (sig, note) => emit case agree false (reqBranch r implOk ++ szBranch) sig (szNote ++ note) (if agree then Json.null else modelJ)
+    | none => emit case agree true (reqBranch r implOk ++ szBranch) "" (if agree then "" else "model differs") (if agree then Json.null else modelJ)
   | "shared" =>
     -- one translator, many clients at once: the translation is a function of the request (`translate` has no other input)
     let impl := jget j "impl"
